@@ -1253,6 +1253,18 @@ impl Server {
         false
     }
 
+    /// The connection is being handed back in a state that `checkin_cleanup` did not get a
+    /// chance to (or could not) reset: still inside a transaction, in COPY mode, with part of
+    /// a reply unread, or with session state marked for cleanup. This happens when the client
+    /// task exits abnormally (protocol error, panic) while it holds the server.
+    /// Such a connection must not be given to another client.
+    pub fn is_dirty(&self) -> bool {
+        self.in_transaction
+            || self.in_copy_mode
+            || self.data_available
+            || (self.cleanup_connections && self.cleanup_state.needs_cleanup())
+    }
+
     /// Get server startup information to forward it to the client.
     pub fn server_parameters(&self) -> ServerParameters {
         self.server_parameters.clone()
